@@ -983,6 +983,20 @@ try:
             f = os.path.join(p, e["metadata-file"])
             if not os.path.exists(f): bad.append((bound, "names a missing version", e["metadata-file"])); continue
             if json.load(open(f)).get("last_updated_ms") != e["timestamp-ms"]: bad.append((bound, "timestamp is not the superseded version's", e))
+    # the bound is lowered on a table whose log is already longer than the new bound
+    p = os.path.join(root, "t_lowered")
+    t = create_table(p, schema=sch)
+    for i in range(6):
+        t.append_records([{"a": i}])
+    b = t.metadata_manager.refresh(); b.properties["write.metadata.previous-versions-max"] = "2"
+    t.metadata_manager.commit(t.metadata_manager.refresh(), b)
+    for i in range(2):
+        t.append_records([{"a": 10 + i}])
+        log = t.metadata_manager.refresh().metadata_log
+        files = sorted(glob.glob(os.path.join(p, "metadata", "v*.metadata.json")), key=lambda f: int(os.path.basename(f)[1:].split(".")[0].split("-")[0]))
+        exp = ["metadata/" + os.path.basename(f) for f in files[:-1]][-2:]
+        got = [e["metadata-file"] for e in log]
+        if got != exp: bad.append(("lowered to 2", "log", got, "expected", exp))
 finally:
     shutil.rmtree(root, ignore_errors=True)
 print("replay metadata log ->", bad[:3] or "ok")
@@ -1023,6 +1037,17 @@ try:
     for p, v in e3.items():
         if p in e1 and v != e1[p]: bad.append(("carried file re-dated", p, e1[p], v))
     if len(list(load_table(os.path.join(root, "t")).scan())) != 3: bad.append("row count after delete")
+    # a second delete out of the manifest the first one rewrote: the remaining file is carried a second time
+    victim2 = sorted(e1)[1]
+    with t.new_transaction() as tx:
+        tx.delete_files([victim2]); tx.commit()
+    t.append_records([{"a": 5}])
+    m5 = t.metadata_manager.refresh()
+    e5 = entries(t, m5.snapshots[-1])
+    if victim2 in e5 or victim in e5: bad.append("deleted file listed after the second delete")
+    for p, v in e5.items():
+        if p in e1 and v != e1[p]: bad.append(("file carried through two rewrites re-dated", p, e1[p], v))
+    if sorted(e1)[2] not in e5: bad.append("second delete dropped a file that was not named")
 finally:
     shutil.rmtree(root, ignore_errors=True)
 print("replay carry/delete-exact ->", bad[:3] or "ok")
@@ -1073,7 +1098,33 @@ UNITS = {
     "WF-PRESERVE/create_snapshot": (h_create_snapshot_wf, [f"{SM}:SnapshotManager.create_snapshot"], _replay_wf),
     "MLOG/_append_metadata_log": (h_metadata_log, [f"{MM}:MetadataManager._append_metadata_log"], _replay_mlog),
 }
+def h_get_all(h: H):
+    """ALL: both get_all_snapshots return exactly the snapshot list of the metadata read by ONE refresh ([] when there is none) -
+    the contract get_snapshot_by_timestamp is checked against."""
+    c = h.ctx
+    mm = h.obj("MetadataManager")
+    sm = h.obj("SnapshotManager", metadata_manager=mm)
+    snaps = TheoryObj("symiter", label="SNAPSHOTS-OF-THE-METADATA-JUST-READ", fields={"mk": lambda I: SObj("Snapshot", {})})
+    md = SObj("TableMetadata", {"snapshots": snaps}, label="metadata")
+    reads = []
+
+    def refresh(I, fv, a, k):
+        nometa = I.ctx.flip("no-metadata")
+        reads.append(nometa)
+        return None if nometa else md
+    h.reg.contracts[f"{MM}:MetadataManager.refresh"] = refresh
+    out, val = h.call(h.I.getattr(sm, "get_all_snapshots"), [])
+    h.ensure("ALL:never-raises", out == "ok", detail=repr(val) if out != "ok" else "")
+    h.ensure("ALL:reads-the-metadata-exactly-once", len(reads) == 1)
+    if out == "ok" and len(reads) == 1:
+        if reads[0]:
+            h.ensure("ALL:no-metadata=>empty-list", isinstance(val, PList) and len(val.items) == 0)
+        else:
+            h.ensure("ALL:returns-the-snapshot-list-of-the-metadata-just-read", val is snaps)
+
+
 UNITS_C09 = {
+    "ALL/get_all_snapshots": (h_get_all, [f"{SM}:SnapshotManager.get_all_snapshots", f"{MM}:MetadataManager.get_all_snapshots"], _replay_lookup),
     "BY-ID/get_snapshot_by_id": (h_by_id, [f"{MM}:MetadataManager.get_snapshot_by_id"], _replay_lookup),
     "REPOINT-CUR/_most_recent_snapshot_id": (h_most_recent, [f"{SM}:SnapshotManager._most_recent_snapshot_id"], _replay_lookup),
     "BY-TS/get_snapshot_by_timestamp": (h_by_timestamp, [f"{SM}:SnapshotManager.get_snapshot_by_timestamp"], _replay_lookup),
